@@ -11,7 +11,9 @@
 //!                memoised DFS over the producer relation.
 //! Strata: S0 unsigned <= 64 bit without / %, S1 + signed ports, S2 + / %, S3 + 65..300 bit (all
 //! warning-free); templates `seq` (no read after write, sized resets), `seqraw`, `seqones`,
-//! `counter`, `case`, `mem`, `memraw`, `hier`, `iface`.
+//! `counter`, `case`, `mem`, `memraw`, `hier`, `iface`, `shift` (variable shifts of non-power-of-two
+//! wide operands, amounts biased to the stage boundaries) and `memlane` (RAM-inferred array with two
+//! overlapping conditional sub-word writes at one address).
 //! A failing combinational design is shrunk in-process (sub-expression hoisting, widths to the
 //! boundary set, signedness dropped, one stimulus vector; never leaving the warning-free strata)
 //! and then classified by DEFECT CLASS: the smallest set of rewritings of the design (wide ternary
@@ -141,6 +143,14 @@ fn rand_bits(r: &mut Rng, w: usize) -> Bits {
             // small value
             for x in b.iter_mut().skip(3) {
                 *x = false;
+            }
+        }
+        5 => {
+            // 2^k or 2^k - 1 (carry chains, shift amounts around a stage boundary)
+            let k = r.below(w as u64) as usize;
+            let minus_one = r.below(2) == 0;
+            for (i, x) in b.iter_mut().enumerate() {
+                *x = if minus_one { i < k } else { i == k };
             }
         }
         _ => {}
@@ -842,6 +852,64 @@ fn gen_iface(r: &mut Rng) -> Design {
         ins: ports,
         outs: vec![PortSpec { name: "v".into(), width: 1, signed: false }, PortSpec { name: "q".into(), width: w, signed: false }],
         clk: None,
+        rst: None,
+        expr: None,
+        twin: None,
+    }
+}
+
+/// Variable shifts of operands whose width is not a power of two (the barrel shifter's stage count and
+/// its "amount too large" flush), amount port 0..2 bits wider than needed; outputs as wide as the
+/// operand, so no context is narrowed. `b` is signed for a warning-free `>>>`.
+fn gen_shift(r: &mut Rng) -> Design {
+    let w = *r.pick(&[3usize, 5, 6, 7, 9, 10, 12, 13, 17, 24, 31, 33, 48, 63, 65, 100]);
+    let need = (usize::BITS - (w - 1).leading_zeros()) as usize;
+    let sw = need + r.below(3) as usize;
+    let src = format!(
+        "module Top (\n    a: input logic<{w}>,\n    b: input signed logic<{w}>,\n    s: input logic<{sw}>,\n    o0: output logic<{w}>,\n    o1: output logic<{w}>,\n    o2: output signed logic<{w}>,\n    o3: output signed logic<{w}>,\n) {{\n    assign o0 = a << s;\n    assign o1 = a >> s;\n    assign o2 = b >>> s;\n    assign o3 = b <<< s;\n}}\n"
+    );
+    Design {
+        kind: "shift".into(),
+        stratum: if w > 64 { "S3" } else { "S0" }.into(),
+        src,
+        ins: vec![
+            PortSpec { name: "a".into(), width: w, signed: false },
+            PortSpec { name: "b".into(), width: w, signed: true },
+            PortSpec { name: "s".into(), width: sw, signed: false },
+        ],
+        outs: vec![],
+        clk: None,
+        rst: None,
+        expr: None,
+        twin: None,
+    }
+}
+
+/// An array large enough for RAM inference at the default threshold (1024 bits) with two conditional
+/// sub-word writes to OVERLAPPING lanes of the same address (together they cover the word) and an
+/// asynchronous read: when both conditions hold the later statement wins on the common bits.
+fn gen_memlane(r: &mut Rng) -> Design {
+    let (w, depth, aw) = *r.pick(&[(32usize, 32usize, 5usize), (16, 64, 6), (8, 128, 7), (16, 128, 7)]);
+    let h0 = w / 2 + r.below((w / 2 - 1) as u64) as usize; // lane 0 = [h0:0]
+    let l1 = 1 + r.below(h0 as u64) as usize; // lane 1 = [w-1:l1], l1 <= h0: overlap [h0:l1]
+    let src = format!(
+        "module Top (\n    clk: input clock,\n    c0: input logic,\n    c1: input logic,\n    waddr: input logic<{aw}>,\n    d0: input logic<{w}>,\n    d1: input logic<{w}>,\n    raddr: input logic<{aw}>,\n    rdata: output logic<{w}>,\n) {{\n    var mem: logic<{w}> [{depth}];\n    assign rdata = mem[raddr];\n    always_ff (clk) {{\n        if c0 {{\n            mem[waddr][{h0}:0] = d0[{h0}:0];\n        }}\n        if c1 {{\n            mem[waddr][{top}:{l1}] = d1[{top}:{l1}];\n        }}\n    }}\n}}\n",
+        top = w - 1
+    );
+    Design {
+        kind: "memlane".into(),
+        stratum: "S0".into(),
+        src,
+        ins: vec![
+            PortSpec { name: "c0".into(), width: 1, signed: false },
+            PortSpec { name: "c1".into(), width: 1, signed: false },
+            PortSpec { name: "waddr".into(), width: aw, signed: false },
+            PortSpec { name: "d0".into(), width: w, signed: false },
+            PortSpec { name: "d1".into(), width: w, signed: false },
+            PortSpec { name: "raddr".into(), width: aw, signed: false },
+        ],
+        outs: vec![],
+        clk: Some("clk".into()),
         rst: None,
         expr: None,
         twin: None,
@@ -1616,17 +1684,44 @@ fn emit(log: &mut Log, id: &str, d: &Design, b: &Built, lib: usize, ram: usize, 
     Some(oc)
 }
 
+fn nat_bits(v: usize, w: usize) -> Bits {
+    (0..w).map(|i| i < 64 && v >> i & 1 == 1).collect()
+}
+
 fn gen_stim(r: &mut Rng, d: &Design, cycles: usize) -> Vec<Vec<Bits>> {
     let mut out = vec![];
+    // memlane: two addresses, so that every word is soon fully written and then read back
+    let addrs: Vec<usize> = (0..2).map(|_| r.next() as usize).collect();
     for ci in 0..cycles {
         let mut c = vec![];
+        let mut waddr: Option<Bits> = None;
         for p in &d.ins {
             // the reset cycle carries zeros on every data input
             if ci == 0 && d.rst.is_some() {
                 c.push(vec![false; p.width]);
-            } else {
-                c.push(rand_bits(r, p.width));
+                continue;
             }
+            let v = match (d.kind.as_str(), p.name.as_str()) {
+                // shift amounts around the operand width and around the stage boundaries
+                ("shift", "s") => {
+                    let w = d.ins[0].width;
+                    let k = (usize::BITS - 1 - w.leading_zeros()) as usize; // floor(log2 w)
+                    let cands = [0, 1, w - 1, w, w + 1, (1 << k) - 1, 1 << k, (1 << k) + 1, (1usize << p.width.min(20)) - 1];
+                    if r.below(4) == 0 { rand_bits(r, p.width) } else { nat_bits(*r.pick(&cands), p.width) }
+                }
+                ("memlane", "c0") | ("memlane", "c1") => vec![r.below(4) != 0],
+                ("memlane", "waddr") => {
+                    let a = nat_bits(addrs[r.below(2) as usize], p.width);
+                    waddr = Some(a.clone());
+                    a
+                }
+                ("memlane", "raddr") => match &waddr {
+                    Some(a) if r.below(4) != 0 => a.clone(),
+                    _ => nat_bits(addrs[r.below(2) as usize], p.width),
+                },
+                _ => rand_bits(r, p.width),
+            };
+            c.push(v);
         }
         out.push(c);
     }
@@ -2086,7 +2181,7 @@ fn run(opts: &Opts, log: &mut Log) {
     for case in 0..n {
         let mut rr = r.fork();
         // half of the budget on S0 combinational + structural templates, the rest on S1..S3
-        let d = match case % 12 {
+        let d = match case % 14 {
             0 | 1 | 2 => gen_comb(&mut rr, 0),
             3 => gen_seq(&mut rr, 0),
             4 => gen_counter(&mut rr),
@@ -2096,7 +2191,9 @@ fn run(opts: &Opts, log: &mut Log) {
             8 => gen_comb(&mut rr, 1),
             9 => gen_comb(&mut rr, 2),
             10 => gen_comb(&mut rr, 3),
-            _ => gen_seq(&mut rr, 1 + (case as u32 / 12) % 2),
+            11 => gen_seq(&mut rr, 1 + (case as u32 / 14) % 2),
+            12 => gen_shift(&mut rr),
+            _ => gen_memlane(&mut rr),
         };
         log.count("generated");
         let t_design = std::time::Instant::now();
@@ -2132,7 +2229,7 @@ fn run(opts: &Opts, log: &mut Log) {
                 first = oc;
             }
         }
-        if d.kind == "mem" || d.kind == "memraw" {
+        if d.kind == "mem" || d.kind == "memraw" || d.kind == "memlane" {
             for ram in 1..3 {
                 emit(log, &id, &d, &b, case % 4, ram, &stim, None);
             }
